@@ -497,7 +497,8 @@ class Interp(object):
             from .values import mkpair
 
             try:
-                la, lb = list(it.l), list(it.r)
+                la = [] if it.l is UNBOUND else list(it.l)
+                lb = [] if it.r is UNBOUND else list(it.r)
             except Exception:  # noqa: BLE001
                 raise Unsupported("iteration over %r" % (it,))
             T, F = vc.T, vc.F
